@@ -3,6 +3,7 @@ package fscache
 import (
 	"os"
 	"path"
+	"strings"
 	"sync"
 
 	"github.com/goatcms/goatcore/filesystem"
@@ -119,10 +120,29 @@ func (c *Cache) Commit() (err error) {
 	return nil
 }
 
-// Copy duplicate a file or directory
+// isRemoved return true if the path, or a directory above it, has a pending remove
+func (c *Cache) isRemoved(p string) bool {
+	c.changes.removeMU.RLock()
+	_, removed := c.changes.remove[p]
+	c.changes.removeMU.RUnlock()
+	if removed {
+		return true
+	}
+	c.changes.removeAllMU.RLock()
+	defer c.changes.removeAllMU.RUnlock()
+	for dir := range c.changes.removeAll {
+		if p == dir || strings.HasPrefix(p, dir+"/") {
+			return true
+		}
+	}
+	return false
+}
+
+// srcFS return the filespace that serves the path: the buffer if it holds the node or if the
+// node has a pending remove (a removed remote node is gone for readers), the remote otherwise
 func (c *Cache) srcFS(p string) (srcFS filesystem.Filespace, src string) {
 	src = varutil.CleanPath(p)
-	if c.bufferFS.IsExist(src) {
+	if c.bufferFS.IsExist(src) || c.isRemoved(src) {
 		srcFS = c.bufferFS
 	} else {
 		srcFS = c.remoteFS
@@ -176,11 +196,20 @@ func (c *Cache) ReadDir(src string) (result []os.FileInfo, err error) {
 	)
 	src = varutil.CleanPath(src)
 	remoteDirs, remoteErr = c.remoteFS.ReadDir(src)
+	if remoteErr == nil && c.isRemoved(src) {
+		remoteDirs, remoteErr = nil, goaterr.Errorf("%s is removed", src)
+	}
 	bufferDirs, bufferErr = c.bufferFS.ReadDir(src)
 	if remoteErr != nil && bufferErr != nil {
 		return nil, goaterr.ToError(goaterr.AppendError(nil, remoteErr, bufferErr))
 	}
-	result = remoteDirs
+	// remote nodes with a pending remove are gone (the buffer lists what was created since)
+	for _, rnode := range remoteDirs {
+		if !c.isRemoved(varutil.CleanPath(src + "/" + rnode.Name())) {
+			result = append(result, rnode)
+		}
+	}
+	remoteDirs = result
 ReadDirLoop:
 	for _, bnode := range bufferDirs {
 		for _, cnode := range remoteDirs {
@@ -196,19 +225,19 @@ ReadDirLoop:
 // IsExist return true if node exist
 func (c *Cache) IsExist(src string) bool {
 	src = varutil.CleanPath(src)
-	return c.bufferFS.IsExist(src) || c.remoteFS.IsExist(src)
+	return c.bufferFS.IsExist(src) || (!c.isRemoved(src) && c.remoteFS.IsExist(src))
 }
 
 // IsFile return true if node exist and is a file
 func (c *Cache) IsFile(src string) bool {
 	src = varutil.CleanPath(src)
-	return c.bufferFS.IsFile(src) || c.remoteFS.IsFile(src)
+	return c.bufferFS.IsFile(src) || (!c.isRemoved(src) && c.remoteFS.IsFile(src))
 }
 
 // IsDir return true if node exist and is a directory
 func (c *Cache) IsDir(src string) bool {
 	src = varutil.CleanPath(src)
-	return c.bufferFS.IsDir(src) || c.remoteFS.IsDir(src)
+	return c.bufferFS.IsDir(src) || (!c.isRemoved(src) && c.remoteFS.IsDir(src))
 }
 
 // MkdirAll create directory recursively
